@@ -106,6 +106,13 @@ VALUE_PROGRAMS = [
     "main:\n    addi sp, sp, -8\n    sw ra, 4(sp)\n    li a0, 3\n    call twice\n    lw ra, 4(sp)\n    addi sp, sp, 8\n    li a7, 10\n    ecall\ntwice:\n    addi sp, sp, -8\n    sw s1, 0(sp)\n    mv s1, a0\n    add a0, s1, s1\n    lw s1, 0(sp)\n    addi sp, sp, 8\n    ret\n",
     "main:\n    la t0, handler\n    csrrw zero, 5, t0\n    li a7, 10\n    ecall\nhandler:\n    csrrw t0, 64, t0\n    addi t0, t0, 1\n    csrrw t0, 64, t0\n    uret\n",
     "main:\n    lui t0, 0x80000\n    addi t0, t0, -1\n    slli t1, t0, 1\n    srai t2, t1, 31\n    mulh t3, t0, t0\n    li a7, 10\n    ecall\n",
+    # ecall numbers computed from a0/a1 that survive earlier ecalls without results (chains of 3 and 4)
+    "main:\n    li a0, 5\n    li a7, 1\n    ecall\n    addi a7, a0, -4\n    ecall\n    addi a7, a0, 5\n    ecall\n    addi t0, t0, 1\n",
+    "main:\n    li a0, 5\n    li a1, 30\n    li a7, 1\n    ecall\n    addi a7, a0, -1\n    ecall\n    addi a7, a1, 2\n    ecall\n    sub a7, a1, a0\n    addi a7, a7, 68\n    ecall\n    li t1, 1\n",
+    # tail calls (j to a function label) in all source orders of caller / callee / callee's callee; arguments passed through
+    "main:\n    li a0, 1\n    li a1, 2\n    jal h\n    li a1, 3\n    jal g\n    li a7, 1\n    ecall\n    li a7, 10\n    ecall\nk:\n    add a0, a0, a1\n    ret\ng:\n    addi sp, sp, -4\n    sw ra, 0(sp)\n    jal k\n    lw ra, 0(sp)\n    addi sp, sp, 4\n    ret\nh:\n    addi a0, a0, 1\n    j g\n",
+    "main:\n    li a0, 1\n    li a1, 2\n    li a2, 4\n    jal h\n    li a7, 1\n    ecall\n    li a7, 10\n    ecall\nh:\n    addi a0, a0, 1\n    beqz a0, g\n    j k\ng:\n    add a0, a0, a2\n    j k\nk:\n    add a0, a0, a1\n    ret\n",
+    "main:\n    li a0, 1\n    li a1, 2\n    li a2, 4\n    jal k\n    jal g\n    jal h\n    li a7, 10\n    ecall\nk:\n    add a0, a0, a1\n    ret\nh:\n    addi a0, a0, 1\n    j g\ng:\n    add a0, a0, a2\n    j k\n",
 ]
 
 # loops, irreducible flow, recursion, many call sites (C12 / C06)
@@ -168,11 +175,22 @@ def exit_chain(k):
     s = "main:\n" + "".join("    beqz %s, L%d\n" % (regs[i], i + 1) for i in range(k - 1))
     s += "    li a7, 10\n    ecall\n" + "".join("E%d:\n    ecall\n" % (i + 2) for i in range(k - 1))
     s += "    addi t0, t0, 1\n    li a7, 10\n    ecall\n"
-    s += "".join("L%d:\n    li a7, 93\n    j E%d\n" % (i + 1, i + 2) for i in range(k - 1))
+    # alternating numbers: what reaches E(i+1) from Ei differs from what reaches it from Li until the edge behind Ei is cut
+    s += "".join("L%d:\n    li a7, %d\n    j E%d\n" % (i + 1, 93 if i % 2 == 0 else 10, i + 2) for i in range(k - 1))
     return s
 
 
+# an exit that is reachable only through another exit, next to a chain (the exit status of 'quit' goes away once 'fail' is cut)
+EXIT_PROGRAMS += [
+    "main:\n    beq a1, zero, part2\nfail:\n    li a0, 1\n    li a7, 93\n    ecall\nquit:\n    ecall\npart2:\n    li a7, 93\n    beq a2, zero, third\n    li a7, 10\n    beq a0, zero, second\n    li a7, 93\n    ecall\nsecond:\n    ecall\nthird:\n    ecall\n    li a0, 1\n    li a7, 1\n    ecall\n",
+    "main:\n    bnez a1, part2\n    li a7, 10\n    ecall\nq2:\n    ecall\nq3:\n    ecall\npart2:\n" + exit_chain(4).replace("main:\n", ""),
+]
 EXIT_PROGRAMS += [exit_chain(k) for k in (4, 5, 7)]
+# a function with an error exit; behind the exit, code that ends in a return nobody calls / in the next function
+EXIT_PROGRAMS += [
+    "main:\n    jal f\n    li a7, 10\n    ecall\nf:\n    bnez a1, go\n    ret\ngo:\n    li a7, 93\n    ecall\nafter:\n    addi a0, a0, 1\n    addi a0, a0, 2\n    ret\n",
+    "main:\n    jal f\n    jal g\n    li a7, 10\n    ecall\nf:\n    bnez a1, go\n    ret\ngo:\n    li a7, 93\n    ecall\ng:\n    addi a0, a0, 1\n    beqz a0, g2\n    ret\ng2:\n    addi a0, a0, 2\n    ret\n",
+]
 # the same chain inside a called function, another function behind it
 EXIT_PROGRAMS += ["start:\n    jal main\n    jal g\n    li a7, 10\n    ecall\n" + exit_chain(k).replace("main:\n", "main:\n    bnez a6, R\n") + "R:\n    ret\n" + "g:\n    addi a0, a0, 1\n    ret\n" for k in (3, 5)]
 
@@ -223,6 +241,9 @@ TWIN_FILES = [
      "a.s": "fa:\n    li s1, 1\n    ret\n", "b.s": "fb:\n    li s2, 2\n    ret\n"},
     {"main.s": "main:\n    li a0, 3\n    call f\n    li a7, 10\n    ecall\nf:\n    addi sp, sp, -16\n    beqz a0, z\n.include \"a.s\"\nz:\n.include \"b.s\"\n",
      "a.s": "    li t0, 1\n    addi sp, sp, 16\n    ret\n", "b.s": "    li t0, 2\n    addi sp, sp, 12\n    ret\n"},
+    # undefined labels used in the base file (further down) and in an included file (further up): one error, at the first use in program order
+    {"main.s": "main:\n    li a0, 1\n    beqz a0, undefined_a\n    li a7, 10\n    ecall\n.include \"lib.s\"\n", "lib.s": "other:\n    beqz a0, undefined_b\n    ret\n"},
+    {"main.s": ".include \"lib.s\"\nmain:\n    j zzz_nowhere\n", "lib.s": "\n\n\n\nother:\n    la t0, aaa_nowhere\n    jal bbb_nowhere\n"},
 ]
 
 # functions sharing code: shared tails, several returns, interleaved layouts (C11, C10, C12)
@@ -239,6 +260,6 @@ SHARED_PROGRAMS = [
     "main:\n    call a\n    call b\n    call c\n    li a7, 10\n    ecall\na:\n    li a0, 1\n    j ab\nb:\n    li a0, 2\nab:\n    addi a0, a0, 1\n    beqz a0, abc\n    ret\nc:\n    li a0, 3\nabc:\n    addi a0, a0, 2\n    ret\n",
     # directives between a label and its first instruction; data labels next to code labels
     "main:\n    jal f\n    jal g\n    li a7, 10\n    ecall\nf:\n    .align 2\n    addi a0, a0, 1\n    ret\n.data\nbuf: .word 1\n.text\ng:\n    addi a0, a0, 2\n    ret\n",
-    "main:\n    la t0, handler\n    csrrw zero, 5, t0\n    jal f\n    li a7, 10\n    ecall\nhandler:\n    .align 4\n    csrrw t0, 64, t0\n    csrrw t0, 64, t0\n    uret\n.data\nmsg: .asciz \"hi\"\n.text\nf:\n.globl f\n    li a0, 1\n    ret\n",
+    "main:\n    la t0, handler\n    csrrw zero, 5, t0\n    jal f\n    li a7, 10\n    ecall\nhandler:\n    .align 4\n    csrrw t0, 64, t0\n    csrrw t0, 64, t0\n    uret\n.data\nmsg: .asciz \"hi\"\n.text\nf:\n.align 2\n    li a0, 1\n    ret\n",
     "main:\n    jal f\n    li a7, 10\n    ecall\n.data\nd1: .word 1\nd2: .space 8\n.text\n.align 2\nf:\n.align 2\nf2:\n    beqz a0, f2\n    ret\n",
 ]
